@@ -8,7 +8,7 @@
 //
 //   - every gate first snapshots the partition directory and _compaction_state/ and appends the
 //     difference to <obs>/events.ndjson (so each storage mutation is recorded, in order, by
-//     whoever performs the next one; new data files are hard-linked into <obs>/links so that
+//     whoever performs the next one; new data files are copied into <obs>/links so that
 //     their rows can still be read after a later compaction deleted them);
 //   - in the compaction subprocess ("child") the gate counts the mutations of this job and
 //     SIGKILLs the process at the entry of the k-th one when <obs>/plan.json says so.
@@ -30,12 +30,14 @@ import (
 	"syscall"
 	"time"
 
+	"github.com/basekick-labs/arc/internal/compaction"
 	"github.com/basekick-labs/arc/internal/storage"
 )
 
 type entry struct {
-	Ino  uint64 `json:"ino"`
-	Size int64  `json:"size"`
+	Ino   uint64 `json:"ino"`
+	Size  int64  `json:"size"`
+	Mtime int64  `json:"mtime"`
 }
 
 type snapshot struct {
@@ -81,6 +83,22 @@ func InstallChild() {
 	killAt = plan[strconv.Itoa(jobNo)]
 	emit(map[string]interface{}{"ev": "jobstart", "job": jobNo, "kill_at": killAt})
 	storage.VerifGate = gate
+	// Controlled clock for Job (overlaygen -clock on internal/compaction/job.go): all jobs of one cycle run inside the
+	// SAME wall-clock second, as they do on a fast machine, with strictly increasing nanoseconds (job number * 1ms +
+	// 1us per clock read). Nothing may rely on two sibling jobs landing in different seconds.
+	if b, err := os.ReadFile(filepath.Join(obsDir, "clock")); err == nil {
+		if base, err := strconv.ParseInt(strings.TrimSpace(string(b)), 10, 64); err == nil {
+			var calls int64
+			var cmu sync.Mutex
+			job := int64(jobNo)
+			compaction.VerifNow = func() time.Time {
+				cmu.Lock()
+				defer cmu.Unlock()
+				calls++
+				return time.Unix(0, base+job*1_000_000+calls*1_000)
+			}
+		}
+	}
 }
 
 func bump(path string) int {
@@ -147,7 +165,7 @@ func take() snapshot {
 			if err != nil {
 				continue
 			}
-			e := entry{Size: fi.Size()}
+			e := entry{Size: fi.Size(), Mtime: fi.ModTime().UnixNano()}
 			if st, ok := fi.Sys().(*syscall.Stat_t); ok {
 				e.Ino = st.Ino
 			}
@@ -217,11 +235,10 @@ func observe(by string) {
 	}
 	for _, f := range puts {
 		e := cur.Files[f]
-		link := filepath.Join(obsDir, "links", strconv.FormatUint(e.Ino, 10)+"_"+f)
-		src := filepath.Join(root, part, f)
-		if err := os.Link(src, link); err != nil {
-			copyFile(src, link)
-		}
+		// a private COPY, never a hard link: a staging file that is later truncated/rewritten in place (same name
+		// reused by another job) must neither change what was observed here nor be touched by the observer
+		link := filepath.Join(obsDir, "links", strconv.FormatUint(e.Ino, 10)+"_"+strconv.FormatInt(e.Mtime, 10)+"_"+f)
+		copyFile(filepath.Join(root, part, f), link)
 		emit(map[string]interface{}{"ev": "put", "f": f, "ino": e.Ino, "size": e.Size, "link": link, "by": by, "batch": n})
 	}
 	for _, f := range dels {
